@@ -52,12 +52,21 @@ func NewResponse(code int, body io.Reader, req *http.Request) *http.Response {
 
 	if req != nil {
 		res.Close = req.Close
-		res.Proto = req.Proto
-		res.ProtoMajor = req.ProtoMajor
-		res.ProtoMinor = req.ProtoMinor
+		SetProto(res, req)
 	}
 
 	return res
+}
+
+// SetProto sets the protocol version of res to the version of req if that is HTTP/1.0 or HTTP/1.1,
+// and to HTTP/1.1 otherwise. A request line may name any version (e.g. the HTTP/2 connection
+// preface "PRI * HTTP/2.0"), but the response is written to an HTTP/1 connection.
+func SetProto(res *http.Response, req *http.Request) {
+	if req.ProtoMajor == 1 && (req.ProtoMinor == 0 || req.ProtoMinor == 1) {
+		res.Proto, res.ProtoMajor, res.ProtoMinor = req.Proto, req.ProtoMajor, req.ProtoMinor
+	} else {
+		res.Proto, res.ProtoMajor, res.ProtoMinor = "HTTP/1.1", 1, 1
+	}
 }
 
 // Warning adds an error to the Warning header in the format: 199 "martian"
